@@ -4,6 +4,7 @@ import (
 	"fmt"
 	"go/token"
 	"go/types"
+	"strings"
 
 	"golang.org/x/tools/go/ssa"
 )
@@ -270,6 +271,123 @@ func runC17(w *World, r *Report) {
 	}
 
 	// ---- index-preserved
+	r.Rule("C17.call-as-given", "a tool is run on the name, the arguments and the call id exactly as they stand in the tool call: genToolCallTasks' local copy of the call is written once (the whole element) and task.name / arg / callID (and newUnknownToolTask's arguments) are direct loads of Function.Name / Function.Arguments / ID of that copy; the runners hand task.arg itself to the tool", 6)
+	{
+		tcT := w.Named("schema", "ToolCall")
+		var cell *ssa.Alloc
+		instrs(gen, func(in ssa.Instruction) {
+			if al, ok := in.(*ssa.Alloc); ok && namedOf(al.Type().(*types.Pointer).Elem()) == tcT {
+				cell = al
+			}
+		})
+		if cell == nil {
+			undecidedf("C17.call-as-given: genToolCallTasks has no local schema.ToolCall copy")
+		}
+		// (1) written once, as a whole, from input.ToolCalls[i]
+		nWhole := 0
+		instrs(gen, func(in ssa.Instruction) {
+			st, ok := in.(*ssa.Store)
+			if !ok {
+				return
+			}
+			if st.Addr == ssa.Value(cell) {
+				nWhole++
+				ld, ok := st.Val.(*ssa.UnOp)
+				okSrc := false
+				if ok {
+					if ia, ok := ld.X.(*ssa.IndexAddr); ok && isLoadOfField(ia.X, fToolCalls) {
+						okSrc = true
+					}
+				}
+				r.Check(okSrc, "C17.call-as-given", "genToolCallTasks: the local call is a copy of input.ToolCalls[i]", st.Pos(), "whole-element copy", "the local tool call is filled from something else than the i-th call of the message")
+				return
+			}
+			root := st.Addr
+			for {
+				fa, ok := root.(*ssa.FieldAddr)
+				if !ok {
+					break
+				}
+				root = fa.X
+			}
+			if root == ssa.Value(cell) && st.Addr != ssa.Value(cell) {
+				r.Fail("C17.call-as-given", "genToolCallTasks rewrites a field of the tool call before running it", st.Pos(), "the name / arguments / id the tool is run with are no longer the call's (e.g. empty arguments 'normalised' to {}): the i-th message carries the tool's answer to different arguments, and a tool that would have failed on the given arguments succeeds")
+			}
+		})
+		if nWhole != 1 {
+			undecidedf("C17.call-as-given: %d whole stores into the local tool call", nWhole)
+		}
+		// (2) the task fields / unknown-tool arguments are direct loads of the copy
+		want := map[string]string{"name": "Function.Name", "arg": "Function.Arguments", "callID": "ID"}
+		direct := func(v ssa.Value, path string) bool {
+			root, p := loadFieldPath(v)
+			return root == ssa.Value(cell) && strings.Join(p, ".") == path
+		}
+		seenF := map[string]bool{}
+		for _, fw := range fieldWrites(gen) {
+			if fw.owner != taskT || want[fw.field.Name()] == "" {
+				continue
+			}
+			seenF[fw.field.Name()] = true
+			r.Check(direct(fw.val, want[fw.field.Name()]), "C17.call-as-given", "genToolCallTasks: task."+fw.field.Name()+" = toolCall."+want[fw.field.Name()], fw.in.Pos(), "direct load of the call's field", "task."+fw.field.Name()+" is not the call's "+want[fw.field.Name()]+" as given (trimmed, defaulted, re-encoded or taken from another field)")
+		}
+		for f := range want {
+			if !seenF[f] {
+				undecidedf("C17.call-as-given: genToolCallTasks never stores task.%s", f)
+			}
+		}
+		unk := w.Fn("compose", "newUnknownToolTask")
+		for _, c := range callsTo(gen, unk) {
+			args := c.Common().Args
+			for i, pth := range []string{"Function.Name", "Function.Arguments", "ID"} {
+				r.Check(direct(args[i], pth), "C17.call-as-given", fmt.Sprintf("genToolCallTasks: newUnknownToolTask argument %d = toolCall.%s", i, pth), c.Pos(), "direct load of the call's field", "the unknown-tool handler is not given the call's "+pth+" as it stands")
+			}
+		}
+		// newUnknownToolTask keeps its parameters
+		for _, fw := range fieldWrites(unk) {
+			if fw.owner != taskT || want[fw.field.Name()] == "" {
+				continue
+			}
+			p, ok := fw.val.(*ssa.Parameter)
+			if ld, isLd := fw.val.(*ssa.UnOp); !ok && isLd {
+				// a parameter captured by the handler closure lives in a cell: the cell's only store is the parameter
+				if al, isAl := ld.X.(*ssa.Alloc); isAl {
+					n := 0
+					for _, ref := range *al.Referrers() {
+						if st, isSt := ref.(*ssa.Store); isSt && st.Addr == ssa.Value(al) {
+							n++
+							p, ok = st.Val.(*ssa.Parameter)
+						}
+					}
+					ok = ok && n == 1
+				}
+			}
+			r.Check(ok && p.Name() == fw.field.Name(), "C17.call-as-given", "newUnknownToolTask: task."+fw.field.Name()+" = parameter "+fw.field.Name(), fw.in.Pos(), "parameter stored unchanged", "the unknown-tool task's "+fw.field.Name()+" is not the parameter it was given")
+		}
+		// (3) the runners pass task.arg itself
+		fArg := w.Field("compose", "toolCallTask", "arg")
+		for _, rn := range []*ssa.Function{w.Fn("compose", "runToolCallTaskByInvoke"), w.Fn("compose", "runToolCallTaskByStream")} {
+			n := 0
+			instrs(rn, func(in ssa.Instruction) {
+				c, ok := in.(*ssa.Call)
+				if !ok {
+					return
+				}
+				sc := staticCallee(c)
+				if sc == nil || !(origin(sc).Name() == "Invoke" || origin(sc).Name() == "Stream") || len(c.Call.Args) < 3 {
+					return
+				}
+				n++
+				a := c.Call.Args[2]
+				f, base := loadedField(a)
+				r.Check(f != nil && sameField(f, fArg) && paramRoot(base, 0) != nil, "C17.call-as-given", w.fname(rn)+": the tool is called on task.arg", c.Pos(), "argument is a load of task.arg", "the tool is not handed the task's argument string itself")
+			})
+			if n == 0 {
+				undecidedf("C17.call-as-given: %s: no Invoke/Stream call on the task's runnable", rn.Name())
+			}
+		}
+	}
+
 	r.Rule("C17.index-preserved", "task i <- tool call i; result i <- task i; result lists sized len(tasks)", 3)
 	{
 		// genToolCallTasks: every store into toolCallTasks[i].<field> uses the index of the input.ToolCalls[i] load
